@@ -157,7 +157,32 @@ def check_c15(seed, tier):
                             fails.append(_f("C15", "C15.remove", name, "removing one item did not remove exactly its (channel, item) pair", case, seed))
                     elif op == "bulk":
                         if name == "PlatformsCalibration":
-                            kind = rng.choice(["add_platforms", "add_platforms_ch", "remove_platforms", "assign"])
+                            kind = rng.choice(["add_platforms", "add_platforms_ch", "add_platforms_dup", "add_platforms_surplus", "remove_platforms", "assign"])
+                            if kind in ("add_platforms_dup", "add_platforms_surplus"):
+                                # whatever a bulk add with a channel named twice / with more channels than platforms does (refuse,
+                                # add a part), the pairs it leaves are pairs: same length, channels unique, earlier pairs untouched
+                                its = [A.item(rng, 50 + i) for i in range(2 if kind == "add_platforms_dup" else 1)]
+                                free = [c for c in range(40, 120) if c not in [int(x) for x, _ in before]]
+                                chs = [free[0], free[0]] if kind == "add_platforms_dup" else [free[0], free[1]]
+                                try:
+                                    b.add_platforms(its, chs)
+                                except Exception:
+                                    pass
+                                after = A.pairs(b)
+                                if [(int(c), id(p)) for c, p in after[:len(before)]] != [(int(c), id(p)) for c, p in before]:
+                                    fails.append(_f("C15", "C15.frame", name, f"{kind} changed an existing pair", case, seed))
+                                if any(id(p) not in [id(x) for x in its] for _, p in after[len(before):]):
+                                    fails.append(_f("C15", "C15.bulk", name, f"{kind} added something that is not one of the platforms given", case, seed))
+                                hist.append(op + ":" + kind)
+                                lm, li = A.lens(b)
+                                chans = [int(c) for c, _ in A.pairs(b)]
+                                if lm != li:
+                                    fails.append(_f("C15", "C15.lengths", name, f"channel list has {lm} entries, item list {li} after {kind}", case, seed))
+                                    break
+                                if len(set(chans)) != len(chans) or lm != len(chans):
+                                    fails.append(_f("C15", "C15.unique", name, f"duplicate channel numbers {list(b._platformMap)} after {kind} with channels {chs}", case, seed))
+                                    break
+                                continue
                             if kind == "add_platforms":
                                 its = [A.item(rng, 50 + i) for i in range(rng.randint(0, 3))]
                                 b.add_platforms(its)
@@ -236,6 +261,9 @@ def _vary(name, rng, b):
     def clone():
         return real_build(name, io.BytesIO(real_write(name, b)), b)
     try:
+        for cnt_attr, lst_attr in (("nFrames", "_tracks"), ("nSamples", "_signals"), ("n_frames", "_platforms")):
+            if hasattr(b, cnt_attr) and hasattr(b, lst_attr) and name in ("Data3D", "ForceTorque3D", "EMG", "PlatformsData") and len(getattr(b, lst_attr)) == 0:
+                c = clone(); setattr(c, cnt_attr, getattr(b, cnt_attr) + 1); out.append((f"{cnt_attr} changed (no items)", c))
         if name == "Data3D":
             c = clone(); c.add_track(gen.marker_track(rng, c.nFrames)); out.append(("one track appended", c))
             if b._tracks:
@@ -407,6 +435,20 @@ def check_c14(seed, tier):
                         fails.append(_f("C14", "C14.file_differs", "Tdf", "files with different numbers of blocks compare equal", case, seed))
             except Exception as e:
                 fails.append(_f("C14", "C14.exception", "Tdf", f"file comparison raised {e!r}", case, seed))
+            # the same blocks in a file with another number of table slots: a different file
+            try:
+                from harness.container_checks import make_file
+                pd = os.path.join(d, f"d{i}.tdf")
+                make_file(pd, rng.choice([10, 12, 16]), [], rng)
+                with Tdf(pd).allow_write() as t:
+                    for b in blocks:
+                        t.add_block(b)
+                n += 1
+                if feq(pa, pd) or feq(pd, pa):
+                    fails.append(_f("C14", "C14.file_differs", "Tdf", "files holding the same blocks in tables of different length compare equal", dict(files=names, index=i, variation="slot count"), seed))
+                os.remove(pd)
+            except Exception as e:
+                fails.append(_f("C14", "C14.exception", "Tdf", f"comparison of files with different slot counts raised {e!r}", case, seed))
             for p in (pa, pb, pc):
                 if os.path.exists(p):
                     os.remove(p)
